@@ -10,13 +10,14 @@ from sim import run_scenario
 from .base import Result, V
 from . import simcommon as SC
 
-MODULES = ['TickitModel.Props.C07', 'TickitModel.Props.C07Nested', 'TickitModel.Props.C12', 'TickitModel.Props.FlatInt', 'TickitModel.Props.C07TwoLevel', 'TickitModel.Props.C07Loop']
-THEOREMS = ['minv_init', 'minv_step', 'no_interrupt_lost', 'not_displaced', 'next_tick_not_after_stamp', 'served_as_root', 'tick_ends_after_roots', 'owed_cleared_only_by_update', 'interrupts_coalesce', 'interrupts_coalesce_fresh', 'interrupt_wake_le_stamp', 'interrupt_record_le_stamp', 'interrupt_keeps_earlier_callback', 'interrupt_keeps_earlier_callback_eq', 'interrupt_replaces_later_callback', 'displaced_without_record', 'interrupt_due_now', 'stamp_law', 'late_immediate', 'nested_no_interrupt_lost', 'queued_becomes_root', 'queued_means_told', 'clear_after_tick_loses', 'interrupt_served', 'interrupt_never_overtaken', 'interrupt_first_update', 'interrupt_next_tick', 'flatRunI_can_continue', 'two_level_inv', 'inner_interrupt_not_lost', 'queued_has_master_obligation', 'idle_master_ticks_sys', 'beginSys_roots_owed', 'ends_wait', 'inner_interrupt_chain', 'inner_interrupt_chain_tick', 'inner_interrupt_chain_current', 'not_passed_up_loses', 'loop_never_dies', 'loop_never_waits_with_work', 'loop_woken_only_for_work', 'loop_progress', 'loop_quiescent_iff', 'served_entries_deleted', 'old_loop_dies', 'new_loop_survives_f16']
+MODULES = ['TickitModel.Props.C07', 'TickitModel.Props.C07Nested', 'TickitModel.Props.C12', 'TickitModel.Props.FlatInt', 'TickitModel.Props.C07TwoLevel', 'TickitModel.Props.C07Loop', 'TickitModel.Props.C07Cost']
+THEOREMS = ['minv_init', 'minv_step', 'no_interrupt_lost', 'not_displaced', 'next_tick_not_after_stamp', 'served_as_root', 'tick_ends_after_roots', 'owed_cleared_only_by_update', 'interrupts_coalesce', 'interrupts_coalesce_fresh', 'interrupt_wake_le_stamp', 'interrupt_record_le_stamp', 'interrupt_keeps_earlier_callback', 'interrupt_keeps_earlier_callback_eq', 'interrupt_replaces_later_callback', 'displaced_without_record', 'interrupt_due_now', 'stamp_law', 'late_immediate', 'nested_no_interrupt_lost', 'queued_becomes_root', 'queued_means_told', 'clear_after_tick_loses', 'interrupt_served', 'interrupt_never_overtaken', 'interrupt_first_update', 'interrupt_next_tick', 'flatRunI_can_continue', 'two_level_inv', 'inner_interrupt_not_lost', 'queued_has_master_obligation', 'idle_master_ticks_sys', 'beginSys_roots_owed', 'ends_wait', 'inner_interrupt_chain', 'inner_interrupt_chain_tick', 'inner_interrupt_chain_current', 'not_passed_up_loses', 'loop_never_dies', 'loop_never_waits_with_work', 'loop_woken_only_for_work', 'loop_progress', 'loop_quiescent_iff', 'served_entries_deleted', 'old_loop_dies', 'new_loop_survives_f16',
+            'delay_telescope', 'c07C_first_tick', 'c07C_mid_gap', 'c07C_served_or_pending', 'c07C_run_complete', 'c07C_served', 'c07C_served_root', 'c07C_served_of_reached', 'c07C_coalesce']
 ANCHORS = ["src/tickit/core/management/schedulers/master.py", "src/tickit/core/management/schedulers/base.py",
            "src/tickit/core/management/schedulers/nested.py", "src/tickit/core/components/system_component.py",
            "src/tickit/core/components/component.py"]
 TECHNIQUE = "Lean 4 theorems over a transition system of the master's bookkeeping in which interrupts arrive at any point (invariant: nothing owed is forgotten or displaced; next tick not after the stamp; served as root; coalescing) + exhaustive sweep of the injection step on the real code and differential run of the real bookkeeping against the model"
-LEVEL_TEXT = "Theorems over the master-bookkeeping transition system (wakeups + pending-interrupt stamps; actions interrupt / answer / tick start / update begins / tick end in ANY order): an owed component is always either a not-yet-updated root of the running tick or holds a wakeup no later than its interrupt stamp - whatever callbacks its answers request (the pre-repair behaviour is shown to violate this); when idle the next tick is not after the stamp, which by the C12 theorems is due at once (no sleeping for an unrelated callback); the component is a root of that tick and a tick cannot end before its roots began their update; interrupts of one component coalesce. The nested queue (NSt) and the COMPOSITION master x nested scheduler are proved as well (Props/C07Nested, Props/C07TwoLevel): an interrupt of a device inside a system is queued and passed up in one step; in every reachable state of the composed system an owed inner component is a not-yet-begun root of the running inner tick, or it is queued AND the master owes the system an update (running root or pending wakeup not after the stamp); when the system's update begins every queued component becomes a root of the inner tick, the inner tick cannot end before their updates began, the system cannot answer and the master tick cannot end before the inner tick ended (inner_interrupt_chain*); without passing the interrupt up it is lost (not_passed_up_loses). At flat run level with interrupts in the history (Props/FlatInt: interrupt_served, interrupt_never_overtaken). The master's RUN LOOP itself (the `new_wakeup` flag raced against the sleep; Core/MasterLoop, Props/C07Loop, tied to `_do_tick` by a trace acceptor over the add_wakeup / tick-start / tick-end events of every run of this check): for every interleaving of wakeups with the loop's own moves the repaired loop never reaches the failed assertion, never waits while a wakeup exists, is woken only for work, always has an enabled move while there is work, and deletes exactly the entries it serves; the original loop provably dies on the history of defect F16 (old_loop_dies). PARTIAL: the real-time bound 'at most the duration of the tick in progress' is validated, not proved: ONE interrupt is injected at EVERY event-loop step from the master's first tick start to the end of a baseline run, for every device at every depth of 4 configurations with processing costs (plus simultaneous sets), on the real asyncio schedule; a monitor checks a later update exists within the bound; the real MasterScheduler's schedule_interrupt/add_wakeup/_do_tick are run against the model on random action sequences."
+LEVEL_TEXT = "Theorems over the master-bookkeeping transition system (wakeups + pending-interrupt stamps; actions interrupt / answer / tick start / update begins / tick end in ANY order): an owed component is always either a not-yet-updated root of the running tick or holds a wakeup no later than its interrupt stamp - whatever callbacks its answers request (the pre-repair behaviour is shown to violate this); when idle the next tick is not after the stamp, which by the C12 theorems is due at once (no sleeping for an unrelated callback); the component is a root of that tick and a tick cannot end before its roots began their update; interrupts of one component coalesce. The nested queue (NSt) and the COMPOSITION master x nested scheduler are proved as well (Props/C07Nested, Props/C07TwoLevel): an interrupt of a device inside a system is queued and passed up in one step; in every reachable state of the composed system an owed inner component is a not-yet-begun root of the running inner tick, or it is queued AND the master owes the system an update (running root or pending wakeup not after the stamp); when the system's update begins every queued component becomes a root of the inner tick, the inner tick cannot end before their updates began, the system cannot answer and the master tick cannot end before the inner tick ended (inner_interrupt_chain*); without passing the interrupt up it is lost (not_passed_up_loses). At flat run level with interrupts in the history (Props/FlatInt: interrupt_served, interrupt_never_overtaken). The master's RUN LOOP itself (the `new_wakeup` flag raced against the sleep; Core/MasterLoop, Props/C07Loop, tied to `_do_tick` by a trace acceptor over the add_wakeup / tick-start / tick-end events of every run of this check): for every interleaving of wakeups with the loop's own moves the repaired loop never reaches the failed assertion, never waits while a wakeup exists, is woken only for work, always has an enabled move while there is work, and deletes exactly the entries it serves; the original loop provably dies on the history of defect F16 (old_loop_dies). THE REAL-TIME BOUND at run level (Props/C07Cost, over the master loop with processing costs Core/SimCost: tick k takes cost k ns; stimuli between ticks and in the middle of ticks, any nesting below the master): every handled stimulus is either served - a later tick record, for a time <= the recorded stamp, that has the interrupting top-level component among its roots (or, only in the model, updates it as a dependant of an earlier root), with every tick in between for an earlier time - or its wakeup is still pending when the run is cut: never lost (c07C_served_or_pending, c07C_served, c07C_run_complete); the next tick after a stimulus between ticks starts AT the stimulus' arrival; after a stimulus in the middle of tick z it starts no later than the end of z plus the sleep for the stamp, which is at most the part of z that had elapsed when the stimulus arrived, hence less than z's duration (c07C_first_tick, c07C_mid_gap); behind earlier-or-equal wakeups the delay is exactly their costs plus the master's sleeps (chain / total bounds, attained in examples); stimuli of one component handled before it is served share one serving tick (c07C_coalesce). PARTIAL: the whole-simulation model records answers with the plain wakeup rule (the master's pending-interrupt guard is in the bookkeeping model Core/Master, not in Core/Sim), so 'root at a time <= stamp' is unconditional only for components that are downstream of no other top-level component (c07C_served_root); the same bound on the REAL asyncio schedule is validated: ONE interrupt is injected at EVERY event-loop step from the master's first tick start to the end of a baseline run, for every device at every depth of 4 configurations with processing costs (plus simultaneous sets), on the real asyncio schedule; a monitor checks a later update exists within the bound; the real MasterScheduler's schedule_interrupt/add_wakeup/_do_tick are run against the model on random action sequences."
 LEVEL_NOTE = 'Trusts: Lean kernel; hand-written bookkeeping transition system (tied by differential run); event-loop steps are those of the harness loop on the synchronous bus; calls the private _do_tick with a stub ticker.'
 ASSUMPTIONS = ['interrupts are raised once the master has begun its initial tick (earlier ones: C13)']
 
